@@ -1,6 +1,6 @@
 use crate::{
     fragment::{Bounds, Rect},
-    Fragment,
+    Fragment, Point,
 };
 
 /// Result of endorsing processes
@@ -57,12 +57,48 @@ fn is_rect(fragments: &[&Fragment]) -> bool {
             let line_b2 = fragments[b2].as_line().expect("expecting a line");
             line_a1.is_touching_aabb_perpendicular(line_b1)
                 && line_a2.is_touching_aabb_perpendicular(line_b2)
+                && lines_are_the_sides_of_their_bounds(fragments)
         } else {
             false
         }
     } else {
         false
     }
+}
+
+/// Four lines in two parallel pairs that merely touch (a ladder: two rails and two rungs, an
+/// `H` with two bars, sides that overhang) are not a rectangle: each of the four sides of
+/// the common bounding box has to be one of the lines.
+fn lines_are_the_sides_of_their_bounds(fragments: &[&Fragment]) -> bool {
+    let mut points = vec![];
+    for frag in fragments {
+        let (p1, p2) = frag.bounds();
+        points.push(p1);
+        points.push(p2);
+    }
+    let xs = points.iter().map(|p| p.x);
+    let ys = points.iter().map(|p| p.y);
+    let min_x = xs.clone().fold(f32::INFINITY, f32::min);
+    let max_x = xs.fold(f32::NEG_INFINITY, f32::max);
+    let min_y = ys.clone().fold(f32::INFINITY, f32::min);
+    let max_y = ys.fold(f32::NEG_INFINITY, f32::max);
+    let top_left = Point::new(min_x, min_y);
+    let top_right = Point::new(max_x, min_y);
+    let bottom_left = Point::new(min_x, max_y);
+    let bottom_right = Point::new(max_x, max_y);
+    let sides = [
+        (top_left, top_right),
+        (bottom_left, bottom_right),
+        (top_left, bottom_left),
+        (top_right, bottom_right),
+    ];
+    sides.iter().all(|(start, end)| {
+        fragments.iter().any(|frag| {
+            frag.as_line()
+                .map(|line| line.start == *start && line.end == *end)
+                .unwrap_or(false)
+        })
+    })
 }
 
 /// qualifications:
